@@ -20,7 +20,7 @@ def run(ctx):
 
 def replay(ctx, path):
     head = open(path).read(4000)
-    if "area=htb" in head or "area=forin" in head:
+    if "area=htb" in head or "area=forin" in head or "area=mapval" in head:
         libdir = C.build_libhawk(ctx)
         return c16_htb.replay(ctx, libdir, path)
     return c16_rbt.replay(ctx, path)
